@@ -561,13 +561,13 @@ func runChatHistory(c *Case) {
 // ---------------------------------------------------------------- end to end
 
 type e2eClient struct {
-	wc    *WireClient
-	id    int
-	acct  int
-	name  []byte
-	live  bool
-	conn  int // model connection serial = login order
-	nreq  uint32
+	wc   *WireClient
+	id   int
+	acct int
+	name []byte
+	live bool
+	conn int // model connection serial = login order
+	nreq uint32
 }
 
 func c12Relevant(t *hotline.Transaction) bool {
@@ -831,7 +831,7 @@ func init() {
 			"histories are sequential (one request is handled at a time); concurrent schedules are C14's subject",
 			"fewer than 65 535 connections per run, so no user id is reissued while a chat still lists its previous holder (DESIGN §15; C13 covers the id space)",
 		}
-		x.Add(&Family{Name: "gofmt", Quick: 4000, Thor: 150000, Run: func(c *Case) {
+		x.Add(&Family{Name: "gofmt", Quick: 4000, Thor: 100000, Run: func(c *Case) {
 			r := c.R
 			name := c12Name(r)
 			if len(name) > 200 {
@@ -866,8 +866,8 @@ func init() {
 			}
 			c.Dist(fmt.Sprintf("gofmt/runes<=13:%v", len(got) == len(ref) && len(name) <= 13))
 		}})
-		x.Add(&Family{Name: "chat-history", Quick: 3000, Thor: 60000, Run: runChatHistory})
-		x.Add(&Family{Name: "chat-e2e", Quick: 16, Thor: 600, Run: runChatE2E})
+		x.Add(&Family{Name: "chat-history", Quick: 3000, Thor: 40000, Run: runChatHistory})
+		x.Add(&Family{Name: "chat-e2e", Quick: 16, Thor: 400, Run: runChatE2E})
 		x.Add(&Family{Name: "stale-member-observation", Quick: 3, Thor: 10, Run: runStaleMemberObservation})
 	}
 }
